@@ -25,15 +25,23 @@
 (* What the code does is modelled as it is.  Surprising behaviour has a name  *)
 (* (history flags / comments marked DEVIATION):                               *)
 (*  EitherEndClosesBoth  common.Copy closes BOTH ends when either direction   *)
-(*                       ends: no half-close; bytes still buffered for the    *)
-(*                       opposite direction are dropped (history cutUp/cutDn  *)
-(*                       records when that loses bytes of a healthy pair).    *)
+(*                       ends: no half-close.  A design limit of the relay,   *)
+(*                       not judged: property (a) is restricted to what the   *)
+(*                       relay can promise - the bytes written before an      *)
+(*                       application's EOF are delivered if the other         *)
+(*                       direction has not ended first, i.e. the peer has not *)
+(*                       closed and sends nothing the closing side can no     *)
+(*                       longer take (history cutUp/cutDn, causes A, B, C).   *)
 (*  DialFailKillsSession serveSession answers a failed proxy dial by closing  *)
-(*                       the WHOLE session (all neighbours), not the stream.  *)
-(*  StaleSessionCapture  the session is chosen at accept time; the goroutine  *)
-(*                       opens its stream after the first read, which may be  *)
-(*                       later than the session's 30 s idle check -> the      *)
-(*                       connection is dropped with its first bytes.          *)
+(*                       the WHOLE session (all neighbours), not the stream   *)
+(*                       (documented nowhere; modelled as it is, not judged). *)
+(*  SessionChosenAtAccept  (flag in Dev; part of every code-faithful        *)
+(*                       configuration; known finding D23) the session is     *)
+(*                       chosen at accept time; the goroutine opens its       *)
+(*                       stream after the first read, which may be later than *)
+(*                       the session's 30 s idle check -> the connection is   *)
+(*                       dropped with its first bytes.  FirstBytesInv is      *)
+(*                       violated with the flag and holds without it.         *)
 (*  SingleplexIdleLeak   singleplex: a connection that ends before its first  *)
 (*                       read leaves its freshly made session to the 30 s     *)
 (*                       idle check (nobody closes it).                       *)
@@ -199,11 +207,21 @@ G_FirstReadTimeout(x, i) == x.rpc[i] = "firstread" /\ x.upL[i] = <<>> /\ x.frdl[
                             /\ "NoFirstReadDeadline" \notin Dev
 E_FirstReadTimeout(x, i) == [x EXCEPT !.lrel[i] = "closed", !.rpc[i] = "done", !.timedOut[i] = TRUE]
 
-G_OpenStream(x, i) == x.rpc[i] = "open"
+\* DEVIATION SessionChosenAtAccept (code-faithful flag, known finding D23): the session was chosen when the connection was
+\* accepted; if it has closed since (30 s idle check while the connection was silent, tunnel failure, ...) OpenStream fails
+\* and the connection is dropped with its first bytes.  Without the flag (what a repair would do): the session is chosen
+\* after the first read - the current one if it is open, otherwise a new one.
+CurOpen(x) == Shared /\ x.cur # 0 /\ (IF x.cur = 0 THEN FALSE ELSE x.cs[x.cur] = "open")
+G_OpenStream(x, i) == /\ x.rpc[i] = "open"
+                      /\ "SessionChosenAtAccept" \in Dev \/ x.cs[x.sess[i]] = "open" \/ CurOpen(x) \/ x.nsess < MaxSess
 E_OpenStream(x, i) ==
   IF x.cs[x.sess[i]] = "open" THEN [x EXCEPT !.cst[i] = "open", !.rpc[i] = "firstwrite"]
-  \* DEVIATION StaleSessionCapture: session chosen at accept time has been closed since; the first bytes are dropped
-  ELSE [x EXCEPT !.lrel[i] = "closed", !.rpc[i] = "done", !.first[i] = <<>>, !.stale[i] = TRUE]
+  ELSE IF "SessionChosenAtAccept" \in Dev
+    THEN [x EXCEPT !.lrel[i] = "closed", !.rpc[i] = "done", !.first[i] = <<>>, !.stale[i] = TRUE]
+    ELSE LET a == IF CurOpen(x) THEN x
+                  ELSE [MakeSess(x) EXCEPT !.cur = IF Shared THEN x.nsess + 1 ELSE @, !.needs = @ + 1]
+             g == IF CurOpen(x) THEN x.cur ELSE x.nsess + 1
+         IN [a EXCEPT !.sess[i] = g, !.cst[i] = "open", !.rpc[i] = "firstwrite", !.hurt[i] = (a.kill[g] # "")]
 
 G_FirstWrite(x, i) == x.rpc[i] = "firstwrite"
 E_FirstWrite(x, i) ==
@@ -430,8 +448,10 @@ Tagged(q, i) == \A k \in 1..Len(q) : ConnOf(q[k]) = i
 NoCrossTalk ==
   \A i \in C : /\ Tagged(st.gotUp[i], i) /\ Tagged(st.gotDn[i], i) /\ Tagged(st.sbuf[i], i) /\ Tagged(st.cbuf[i], i)
                /\ Tagged(st.upP[i], i) /\ Tagged(st.dnL[i], i) /\ Tagged(st.supH[i], i) /\ Tagged(st.cdnH[i], i)
-\* (a) completeness at quiescence.  Owed: the writer ended with a clean close, its session was not killed under it, the
-\* reader is still there and no opposite traffic cut the drain (EitherEndClosesBoth)
+\* (a) completeness at quiescence, restricted to what a relay without half-close can promise: the bytes an application
+\* wrote before its EOF are delivered if the other direction has not ended first.  Owed: the writer ended with a clean
+\* close, its session was not killed under it, the reader is still there (has not closed) and no opposite traffic met the
+\* closed end (causes A, B, C of EitherEndClosesBoth: a design limit, not judged)
 UpOwed(x, i) == x.lapp[i] = "closed" /\ ~x.reset[i] /\ ~x.hurt[i] /\ x.papp[i] # "closed" /\ ~x.cutUp[i] /\ ~x.stale[i] /\ ~x.dfail[i]
 DnOwed(x, i) == x.papp[i] = "closed" /\ ~x.hurt[i] /\ x.lapp[i] = "open" /\ ~x.cutDn[i]
 CompleteInv ==
@@ -484,6 +504,9 @@ SingleInv ==
 \* reachability witnesses for the vacuity run (each must be VIOLATED)
 W_FirstWriteFail == \A i \in C : ~(st.rpc[i] = "done" /\ st.cst[i] = "closed" /\ st.cup[i] = "none")
 W_Stale == \A i \in C : ~st.stale[i]
+\* D23: the first bytes of a connection are never refused because of the session it was given (violated with
+\* SessionChosenAtAccept, holds without)
+FirstBytesInv == \A i \in C : ~st.stale[i]
 W_Cut == \A i \in C : ~st.cutUp[i] /\ ~st.cutDn[i]
 W_LateDial == \A i \in C : ~st.lateDial[i]
 =============================================================================
